@@ -135,38 +135,54 @@ macro_rules! register_set_harness {
 register_set_harness!(operation_queries, Operation, oper, ques);
 register_set_harness!(questionable_queries, Questionable, ques, oper);
 
-/// Writes of ENABle / PTRansition / NTRansition store the value (non-decimal literal so that
-/// every 16-bit value is one token without a digit loop).
+/// Writes of ENABle / PTRansition / NTRansition: with the lexer replaced by its contract, the
+/// parameter is any non-decimal literal value (all 2^64): stored raw when it fits 16 bits,
+/// -222 and nothing changed otherwise; a missing parameter is -109 and nothing changed.
+/// The six (command, parameter present?) cases run one after the other so that every token
+/// kind is a constant when the handler runs (no symbolic control data).
 macro_rules! register_write_harness {
     ($name:ident, $marker:ty, $field:ident, $other:ident) => {
         #[kani::proof]
-        #[kani::unwind(8)]
+        #[kani::unwind(10)]
+        #[kani::stub(<scpi::parser::tokenizer::Tokenizer as core::iter::Iterator>::next, super::kscript::stub_next)]
         pub fn $name() {
+            use super::kscript::*;
             let d0 = any_dev_with(KQueue { items: [scpi::error::Error::default(); QCAP], len: 0 });
-            let v: u16 = kani::any();
-            let hex = [b'#', b'H', hexd(v >> 12), hexd(v >> 8), hexd(v >> 4), hexd(v)];
-            let mut d = d0;
-            let r = evt!(EnableCommand::<$marker>::new(), d, &hex);
-            assert!(r.is_ok() && d.$field.enable == v, "C15/EnableCommand::event/stores-written-value");
-            assert!(d.$field.event == d0.$field.event && d.$field.condition == d0.$field.condition && d.$field.ptr_filter == d0.$field.ptr_filter && d.$field.ntr_filter == d0.$field.ntr_filter && d.$other == d0.$other, "C15/EnableCommand::event/frame");
-            let mut d = d0;
-            let r = evt!(PTransitionCommand::<$marker>::new(), d, &hex);
-            assert!(r.is_ok() && d.$field.ptr_filter == v, "C15/PTransitionCommand::event/stores-written-value");
-            assert!(d.$field.event == d0.$field.event && d.$field.condition == d0.$field.condition && d.$field.enable == d0.$field.enable && d.$field.ntr_filter == d0.$field.ntr_filter && d.$other == d0.$other, "C15/PTransitionCommand::event/frame");
-            let mut d = d0;
-            let r = evt!(NTransitionCommand::<$marker>::new(), d, &hex);
-            assert!(r.is_ok() && d.$field.ntr_filter == v, "C15/NTransitionCommand::event/stores-written-value");
-            assert!(d.$field.event == d0.$field.event && d.$field.condition == d0.$field.condition && d.$field.enable == d0.$field.enable && d.$field.ptr_filter == d0.$field.ptr_filter && d.$other == d0.$other, "C15/NTransitionCommand::event/frame");
+            let v: u64 = kani::any();
+            kani::cover!(v == 0xFFFF);
+            kani::cover!(v == 0x10000);
+            macro_rules! case {
+                ($cmd:expr, $reg:ident, $present:expr) => {{
+                    let mut d = d0;
+                    if $present {
+                        set_script(&[Some(Ok(Token::NonDecimalNumericProgramData(v)))]);
+                    } else {
+                        set_script(&[]);
+                    }
+                    let mut ctx = Context::default();
+                    let mut toks = Tokenizer::new_params(b"").peekable();
+                    let r = Command::<KDev>::event(&$cmd, &mut d, &mut ctx, Parameters::with(&mut toks));
+                    let mut exp = d0;
+                    if $present && v <= 0xFFFF {
+                        exp.$field.$reg = v as u16;
+                        assert!(r.is_ok(), "C15/register-write::event/accepts-0-to-65535");
+                        assert!(pos() == 1, "C15/register-write::event/consumes-exactly-its-parameter");
+                    } else if $present {
+                        assert!(r == Err(scpi::error::ErrorCode::DataOutOfRange.into()), "C15/register-write::event/out-of-range-is-222");
+                    } else {
+                        assert!(r == Err(scpi::error::ErrorCode::MissingParameter.into()), "C15/register-write::event/missing-parameter-is-109");
+                    }
+                    assert!(d == exp, "C15/register-write::event/stores-raw-value-in-its-own-register-only");
+                }};
+            }
+            case!(EnableCommand::<$marker>::new(), enable, true);
+            case!(EnableCommand::<$marker>::new(), enable, false);
+            case!(PTransitionCommand::<$marker>::new(), ptr_filter, true);
+            case!(PTransitionCommand::<$marker>::new(), ptr_filter, false);
+            case!(NTransitionCommand::<$marker>::new(), ntr_filter, true);
+            case!(NTransitionCommand::<$marker>::new(), ntr_filter, false);
         }
     };
-}
-pub fn hexd(v: u16) -> u8 {
-    let n = (v & 0xF) as u8;
-    if n < 10 {
-        b'0' + n
-    } else {
-        b'A' + (n - 10)
-    }
 }
 register_write_harness!(operation_writes, Operation, oper, ques);
 register_write_harness!(questionable_writes, Questionable, ques, oper);
